@@ -360,8 +360,13 @@ class FD_FZ:
     z: int              # declaration order differs from the source
     b: int
     a: int
+@dataclasses.dataclass
+class FD_KW:
+    z: int = dataclasses.field(kw_only=True)        # constructor parameter order (a, b, z) differs from the field order (z, a, b)
+    a: int
+    b: int
 SKINDS = (FS, FS_NT, FS_AT)
-DKINDS = (FD, FD_NT, FD_AT, FD_TD, FD_PK, FD_FZ)
+DKINDS = (FD, FD_NT, FD_AT, FD_TD, FD_PK, FD_FZ, FD_KW)
 def mk_dst(D):
     if D is FD_TD: return lambda **kw: dict(kw)
     if D is FD_PK: return lambda a, b, z: FD_PK(a, b, z=z)
@@ -426,13 +431,13 @@ def build(tier, seed):
         mf.ob(f"family_nested_{lo:02d}", "pi: int, n: int, isnone: bool, a: int, b: int, c: int, p0: int, p1: int", "return fam_nested(pick(pi - %d, %d) + %d, n, isnone, a, b, c, p0, p1)" % (lo, hi - lo, lo),
               pre=[f"{lo} <= pi < {hi}", "0 <= n <= 2"], timeout=tmo, family="converter program family, nested: links and from_param reach nested models inside Optional / List / Dict; same-named parameters only the top level",
               bounds=f"programs {lo}..{hi - 1} of {n_nest}: 8 recipes x 5 parameter lists on a model nesting the flat pair directly, in a list (len<=2), a dict and an Optional; symbolic ints")
-    n_kinds = 3 * 6 * 9 * 2
+    n_kinds = 3 * 7 * 9 * 2
     for lo in range(0, n_kinds, 54):
         hi = min(n_kinds, lo + 54)
         mf.ob(f"family_kinds_{lo:03d}", "pi: int, a: int, b: int, c: int, e: int, p0: int, p1: int", "return fam_kinds(pick(pi - %d, %d) + %d, a, b, c, e, p0, p1)" % (lo, hi - lo, lo),
               pre=[f"{lo} <= pi < {hi}"], timeout=tmo, family="converter program family across model kinds of source and destination",
               bounds=f"programs {lo}..{hi - 1} of {n_kinds}: source dataclass / NamedTuple / attrs x destination dataclass / NamedTuple / attrs / TypedDict / "
-                     "class with positional-only and keyword-only parameters / frozen dataclass with another field order x 9 recipes x 2 parameter lists; symbolic ints")
+                     "class with positional-only and keyword-only parameters / frozen dataclass with another field order / dataclass whose keyword-only field is declared first x 9 recipes x 2 parameter lists; symbolic ints")
     m.ob("history", "a: int, b: str, c: int", "return history(a, b, c)", pre=["len(b) <= 1"], timeout=tmo * 2, family="converter cache vs per-call recipe",
          bounds="plain-then-recipe and recipe-then-plain on one retort; refused pair stays refused after a call with a coercer")
     return Plan("C13", [m, mf], assumptions=["expected results are written by construction from the documented linking rules"],
